@@ -40,7 +40,7 @@ from xdis.cross_types import UnicodeForPython3
 from xdis.instruction import Instruction
 from xdis.op_imports import get_opcode_module
 from xdis.opcodes.opcode_36 import format_CALL_FUNCTION, format_CALL_FUNCTION_EX
-from xdis.util import better_repr, code2num, num2code
+from xdis.util import better_repr, code2num, num2code, safe_repr
 from xdis.version_info import IS_PYPY
 
 VARIANT = "pypy" if IS_PYPY else None
@@ -80,7 +80,7 @@ def get_const_info(const_index, const_list):
         # with the interpreter running xdis
         arg_repr = better_repr(arg_val)
     else:
-        arg_repr = repr(arg_val)
+        arg_repr = safe_repr(arg_val)
 
     # Float values "nan" and "inf" are not directly representable in Python at least
     # before 3.5 and even there it is via a library constant.
